@@ -65,9 +65,9 @@ type scriptedConn struct {
 	noDeadlines bool // SetReadDeadline is not supported by this transport (a tunnel, a pipe): it reports an error
 	ioErrKind   int  // which i/o error the script's failures are (0 plain, 1 wraps a context error, 2 calls itself a timeout)
 	pace        time.Duration
-	began       time.Time     // first Write
+	began       time.Time     // first Read
 	total       time.Duration // the client's total read timeout
-	lateReads   int           // Read calls that STARTED later than total+50ms after the write
+	lateReads   int           // Read calls that STARTED later than total+50ms after the first Read
 	writes      int
 	lastErr     error // the error value the last Read returned
 	slowBy      time.Duration
@@ -78,9 +78,7 @@ func (c *scriptedConn) Write(p []byte) (int, error) {
 	defer c.mu.Unlock()
 	c.written = append(c.written, p...)
 	c.writes++
-	if c.began.IsZero() {
-		c.began = time.Now()
-	}
+	_ = c.began // (set by the first Read: both clients arm their total read timer just before it)
 	if c.writeFails {
 		if c.partialFail && len(p) > 1 {
 			return len(p) / 2, errInjectedWrite
@@ -95,8 +93,15 @@ func (c *scriptedConn) Write(p []byte) (int, error) {
 
 func (c *scriptedConn) Read(p []byte) (int, error) {
 	c.mu.Lock()
-	if c.total > 0 && !c.began.IsZero() && time.Since(c.began) > c.total+50*time.Millisecond {
-		c.lateReads++
+	// The total read timer is armed after the write (the serial client first pauses for 30 ms - longer when the process is
+	// cold) and just before the first Read: that is where the clock of this count starts. A client can start at most one
+	// Read after its timer has fired (the one it was about to make).
+	if c.total > 0 {
+		if c.began.IsZero() {
+			c.began = time.Now()
+		} else if time.Since(c.began) > c.total+50*time.Millisecond {
+			c.lateReads++
+		}
 	}
 	serve := func(data []byte, err error, tag string) (int, error) {
 		c.lastErr = err
@@ -1067,8 +1072,8 @@ func runDoOnce(kind string, hooks bool, flusher string, reqSpec string, script s
 		conn.mu.Lock()
 		late := conn.lateReads
 		conn.mu.Unlock()
-		if late >= 2 {
-			outcome = fmt.Sprintf("READS-STARTED-AFTER-THE-TOTAL-READ-TIMEOUT-HAD-PASSED-%d-or-more ", 2) + outcome
+		if late >= 3 {
+			outcome = fmt.Sprintf("READS-STARTED-AFTER-THE-TOTAL-READ-TIMEOUT-HAD-PASSED-%d-or-more ", 3) + outcome
 		}
 		return outcome, "-", "-", false
 	}
